@@ -25,10 +25,10 @@ go build ./... 2>&1 | tail -3
 go test -vet=off -count=1 ./... 2>&1 | grep -v "no test files" | tail -4
 for f in $DEMOS; do mv $f.aside $f; done
 echo "## demo with the change (must FAIL)"
-go test -vet=off -count=1 -run 'TestDemo' ./... 2>&1 | grep -v "no test files\|no tests to run" | tail -6
+go test -vet=off -count=1 -run 'Test_?Demo' ./... 2>&1 | grep -v "no test files\|no tests to run" | tail -6
 git apply -R $OUT/patch.diff
 echo "## demo without the change (must PASS)"
-go test -vet=off -count=1 -run 'TestDemo' ./... 2>&1 | grep -v "no test files\|no tests to run" | tail -4
+go test -vet=off -count=1 -run 'Test_?Demo' ./... 2>&1 | grep -v "no test files\|no tests to run" | tail -4
 git apply $OUT/patch.diff
 } > $OUT/confirm.log 2>&1
 cat $OUT/confirm.log
@@ -44,7 +44,7 @@ for p in $CHECKS; do
   VERIF_REPO=$WT ./bin/gosym check -prop $p -tier quick -noevidence > /tmp/seed_${ID}_${p}.log 2>&1
   rc=$?
   echo "check $p exit=$rc $(( $(date +%s)-s ))s" | tee -a $OUT/detect.log
-  grep "^VIOLATION\|^INCONCLUSIVE\|^ENGINE-MISMATCH\|^  root=\|^SUMMARY" /tmp/seed_${ID}_${p}.log | cut -c1-400 | head -8 | tee -a $OUT/detect.log
+  { grep -A1 "^VIOLATION" /tmp/seed_${ID}_${p}.log | grep -v "^--" | head -6; grep "^INCONCLUSIVE\|^ENGINE-MISMATCH" /tmp/seed_${ID}_${p}.log | head -3; grep "^SUMMARY" /tmp/seed_${ID}_${p}.log; } | cut -c1-400 | tee -a $OUT/detect.log
   rm -f /tmp/seed_${ID}_${p}.log
 done
 cd $WT; for f in $DEMOS; do mv $f.aside $f; done
